@@ -143,15 +143,18 @@ where
 {
     let name = NAMES[w.op as usize % NAMES.len()];
     let m = &c.module;
-    let mut scratch = ScratchOwned::<B>::alloc(1 << 23);
+    // (roomy: the multi-thread entry points need threads x per-thread size)
+    let mut scratch = ScratchOwned::<B>::alloc(1 << 24);
     let glwe_infos: GLWELayout = c.glwe_infos();
     let mut a_p = encrypt_prepared(c, w.a, w.bootstrap, w.seed, &mut scratch);
     let b_p = encrypt_prepared(c, w.b, w.bootstrap, w.seed ^ 0xB, &mut scratch);
     let mut res: FheUint<Vec<u8>, u32> = FheUint::alloc_from_infos(&glwe_infos);
     let mut cur = w.a;
     let steps = 1 + (w.chain % 3) as usize;
+    // a third of the cases go through the *_multi_thread entry point with a thread count that does not divide the 32 output bits
+    let threads = [1usize, 1, 1, 1, 3, 5, 6, 7, 1, 1, 11, 1][((w.seed >> 17) % 12) as usize];
     for step in 0..steps {
-        apply_op(c, name, &mut res, &a_p, &b_p, 1, &mut scratch);
+        apply_op(c, name, &mut res, &a_p, &b_p, threads, &mut scratch);
         let want = reference(name, cur, w.b);
         let got: u32 = res.decrypt(m, &c.sk_glwe, scratch.borrow());
         if got != want {
@@ -179,6 +182,9 @@ where
     }
     if steps >= 2 {
         cl.push("program_len>=2");
+    }
+    if threads > 1 {
+        cl.push("multi_thread_entry_point");
     }
     Verdict::pass(nt, &cl)
 }
@@ -358,7 +364,7 @@ pub fn replay(ctx: &Ctx, sub: &str, case: &serde_json::Value) -> i32 {
     }
 }
 
-pub const RULE: &str = "cases = (backend in FFT64Ref/FFT64Avx/NTT120Ref, word op in add/sub/sll/srl/sra/slt/sltu/and/or/xor/identity, operands from boundary classes (0, 1, 2^31, 2^32-1, alternating patterns, single bits, shift amounts 0..63) and random, operands either encrypted directly as prepared GGSW bits or encrypted as packed FheUint and prepared through circuit bootstrapping, chains of 1..3 operations with re-preparation of the result); bit surgery: sext(byte 0..2), splice_u8/u16 at every (dst, src), get_bit_glwe at every index, zero_byte, partial preparation fhe_uint_prepare_custom at every (start, count). Oracle: plain Rust u32 result after decryption with the clear key. non-trivial = op != identity with both operands != 0, or program length >= 2.";
+pub const RULE: &str = "cases = (backend in FFT64Ref/FFT64Avx/NTT120Ref, word op in add/sub/sll/srl/sra/slt/sltu/and/or/xor/identity, operands from boundary classes (0, 1, 2^31, 2^32-1, alternating patterns, single bits, shift amounts 0..63) and random, operands either encrypted directly as prepared GGSW bits or encrypted as packed FheUint and prepared through circuit bootstrapping, chains of 1..3 operations with re-preparation of the result, a third of the cases through the *_multi_thread entry points with 3/5/6/7/11 threads); bit surgery: sext(byte 0..2), splice_u8/u16 at every (dst, src), get_bit_glwe at every index, zero_byte, partial preparation fhe_uint_prepare_custom at every (start, count). Oracle: plain Rust u32 result after decryption with the clear key. non-trivial = op != identity with both operands != 0, or program length >= 2.";
 
 pub fn ctx_infos() -> (usize, usize) {
     let c = &*CTX_FFT_REF;
